@@ -14,6 +14,12 @@ CHECKS = {
     'C13': ('model_checking', 'symbolic execution of lexer.New + NextToken + the two-buffer reader with the symbolic text placed behind concrete paddings that sweep the buffer alignments and followed by concrete tails (with and without final newline); the stream must equal the reference stream, which is a function of the text alone', '§7 C13'),
 }
 
+CHECKS.update({
+    'C11': ('model_checking', 'symbolic execution of ParseAndBuildAST and of ast.Parse with its real semantic actions over every token sequence up to a length bound (kinds symbolic): the generic tree must be the reference derivation tree over the input tokens, the typed tree must equal an independently built one; the round-trip and derived-grammar clauses are not decided', '§7 C11'),
+    'C18': ('model_checking', 'symbolic execution of Parse and ParseAndEvaluate with monitoring callbacks over every token sequence up to a length bound: callback order = reverse rightmost derivation of the reference tree, body values and positions, and a symbolic failure step for callbacks and lexer', '§7 C18'),
+    'C20': ('model_checking', 'symbolic execution: every rejected token sequence up to a length bound must blame the first token the reference parser cannot continue with (position, lexeme, nothing later read); every text up to a length bound with a stray or unterminated element must name its first character', '§7 C20'),
+})
+
 NA = {
     'C07': 'well-formedness checks run on hash tables keyed by fnv hashes and are reachable only through the whole parse; a solver decides nothing there that running the program does not (DESIGN.md §7 C07)',
     'C12': 'structural equality between two finite lists per directive list; no second dimension for a solver to quantify over (DESIGN.md §7 C12)',
